@@ -410,6 +410,23 @@ def run(ctx):
                "(or left alone); other files untouched", (len(coq_cases) + len(spelled)) * (len(SOURCES) + 1), nontrivial, [],
                mismatches=len(oracle_bad) + len(untouched_bad))
 
+    # ---- the order of advance_work: parse first, then the top-level filter (Model/Filters.process_file: ParseFailed
+    #      even for a file the top-level filter rejects); the other files are unaffected by the failure
+    bad_tree = {"src/a.lua": "return 1\n", "src/bad.lua": "local = 1\n"}
+    order = talk([{"tree": bad_tree},
+                  {"id": 0, "config": json.dumps({"skip_files": "src/bad.lua", "generator": "retain_lines",
+                                                  "rules": [RULESETS["marks"][0][0]]}), "input": "src"},
+                  {"id": 1, "config": json.dumps({"generator": "retain_lines", "rules": [
+                      dict(RULESETS["marks"][0][0], skip_files="src/bad.lua")]}), "input": "src"}])[1:]
+    order_bad = [a for a in order if not (len(a["errors"]) == 1 and "src/bad.lua" in a["errors"][0]
+                                          and a["files"].get("src/bad.lua") == bad_tree["src/bad.lua"]
+                                          and a["files"].get("src/a.lua") == "--r1\n" + bad_tree["src/a.lua"])]
+    ctx.stream("advance_work order: a file rejected by a filter is still parsed (model: ParseFailed before the filter)",
+               len(order), len(order), [], mismatches=len(order_bad))
+    if order_bad:
+        bad.append((-1, "parse/filter order"))
+        case_info[-1] = ("marks", json.dumps(order_bad[0])[:600])
+
     for ruleset, text, src, why, got in oracle_bad[:4]:
         pos = "top" if "apply_to_files" in json.loads(text) or "skip_files" in json.loads(text) else "rule"
         ctx.violation("filter does not select exactly the matching files: " + why,
